@@ -7,6 +7,10 @@ import SageModel.Model.C03
 bss   [n f32…] lo hi                                   | L R
 page  sortmode kinds minIon [nB B…] [npep (mass seqhex)…] [nq query…]   | db-export results   (or `panic`)
 dbinv (same request format, usually nq = 0)
+pageseq (same request format; ALL queries share preMass / preTol / fragTol: the implementation creates ONE
+        `IndexedQuery` per B and performs the lookups `(fragMz, charge)` through it in request order; per lookup the
+        reply carries the window, the result through the shared query object AND the result of the same lookup
+        through a fresh query object: `… [cnt pairs…] [cnt pairs…]`)
 
 query     = ptk plo phi  ftk flo fhi  preMass fragMz charge        (tolerance kind 0 = ppm, 1 = Da, 2 = Pct)
 db-export = [npep mass…] [nion (pep mz)…]  then per B:  [nfrag (pep mz)…] [nmin minv…]  then per query:
@@ -23,7 +27,8 @@ layout gives the same answer.
 Spec verdicts (evaluated on the implementation's reply):
 `bad:panic`, `bad:dbinv-<clause>@B`, `bad:frag-multiset@B` (stored fragments are not a permutation of the
 generated ions), `bad:scan-missing@B,q` / `bad:scan-extra@B,q` (result ≠ linear scan of the stored
-fragments with the implementation's own windows), `bad:bucket-dependence@q` (two bucket sizes, different answers);
+fragments with the implementation's own windows), `bad:lookup_depends_on_history@B,q` (`pageseq`: the answer through the shared query object differs from the
+answer through a fresh one — the lookup depends on what was looked up before), `bad:bucket-dependence@q` (two bucket sizes, different answers);
 for `bss`: `bad:range`, `bad:covers`, `bad:tight`, `bad:exit`.
 -/
 namespace Sage.C03
@@ -104,6 +109,7 @@ def pReq : P Req := do
 structure QRes where
   win : List Nat          -- fragLo fragHi preLo preHi (bits)
   res : List (Nat × Nat)
+  fresh : Option (List (Nat × Nat)) := none   -- `pageseq`: the same lookup through a FRESH query object
 
 structure BRes where
   frags : List (Frag F)
@@ -115,7 +121,7 @@ structure Impl where
   ions : List (Frag F)
   per : List BRes
 
-def pImpl (nB nq : Nat) : P Impl := do
+def pImpl (seq : Bool) (nB nq : Nat) : P Impl := do
   let masses ← list f32
   let ions ← list pFrag
   let per ← listN (do
@@ -124,7 +130,8 @@ def pImpl (nB nq : Nat) : P Impl := do
       let res ← listN (do
           let w ← listN nat 4
           let r ← list pPair
-          pure ({ win := w, res := r } : QRes)) nq
+          let fr ← if seq then (do let x ← list pPair; pure (some x)) else pure none
+          pure ({ win := w, res := r, fresh := fr } : QRes)) nq
       pure ({ frags := frags, minv := minv, res := res } : BRes)) nB
   pure { masses := masses, ions := ions, per := per }
 
@@ -149,7 +156,25 @@ def firstBad : List (Unit → Option String) → String
     | some s => "bad:" ++ s
     | none => firstBad cs
 
-def handlePage (args impl : List String) : Option Reply := do
+/-- the model's answers to all lookups of a case on one index.  `page`: a fresh query per lookup
+    (`pageSearchC` on the model's window).  `pageseq`: ONE query object (`mkQuery` from the first query's
+    precursor mass and tolerances) and `runSeq` through it, in request order. -/
+def searchAll (seq : Bool) (qs : List Qry) (wins : List (Option (Q F))) (masses minv : Array F)
+    (frags : List (Frag F)) (B : Nat) : List (List (Nat × Nat)) :=
+  if seq then
+    match qs with
+    | [] => []
+    | q0 :: _ =>
+      let iq := mkQuery million hundred masses q0.preTol q0.fragTol q0.preMass
+      (runSeq million hundred iq masses minv frags B (qs.map fun q => (q.fragMz, Float32.ofNat q.charge))).map
+        fun r => match r with
+          | some l => sortPairs (l.map pairOf)
+          | none => []
+  else wins.map fun w => match w with
+    | some w => sortPairs ((pageSearchC masses minv frags B w).map pairOf)
+    | none => []
+
+def handlePage (seq : Bool) (args impl : List String) : Option Reply := do
   let req ← run pReq args
   let expectPanic := req.Bs.any (· == 0) || (!req.Bs.isEmpty && req.qs.any Qry.panics)
   if impl == ["panic"] then
@@ -157,7 +182,7 @@ def handlePage (args impl : List String) : Option Reply := do
              spec := if expectPanic then "ok" else "bad:panic" }
   if expectPanic then
     return { model := "panic", agree := false, spec := "na" }
-  match run (pImpl req.Bs.length req.qs.length) impl with
+  match run (pImpl seq req.Bs.length req.qs.length) impl with
   | none => return { model := "unparsable-impl-reply", agree := false, spec := "na" }
   | some im =>
     let masses := im.masses.toArray
@@ -167,17 +192,21 @@ def handlePage (args impl : List String) : Option Reply := do
       match buildIndex B im.ions with
       | none => ([], false)
       | some (minvM, fragsM) =>
-        let rs := wins.map fun w => match w with
+        let resB := searchAll seq req.qs wins masses minvM fragsM B
+        -- the same search on the layout the REAL builder produced
+        let resA := searchAll seq req.qs wins masses br.minv.toArray br.frags B
+        let rs := (wins.zip (resB.zip resA)).map fun (w, rB, rA) => match w with
           | none => (({ win := [], res := [] } : QRes), true)
-          | some w =>
-            let rB := sortPairs ((pageSearchC masses minvM fragsM B w).map pairOf)
-            -- the same `pageSearch` on the layout the REAL builder produced
-            let rA := sortPairs ((pageSearchC masses br.minv.toArray br.frags B w).map pairOf)
-            ({ win := winBits w, res := rB }, rA == rB)
-        (rs.map (·.1), rs.all (·.2))
+          | some w => ({ win := winBits w, res := rB }, rA == rB)
+        (rs.map (·.1), rs.all (·.2) && resB.length == wins.length && resA.length == wins.length)
     let model := " ".intercalate (modelPer.map fun (rs, _) => " ".intercalate (rs.map outQRes))
     let implStr := " ".intercalate (im.per.map fun br => " ".intercalate (br.res.map outQRes))
-    let agree := words model == words implStr && modelPer.all (·.2)
+    -- `pageseq`: the fresh-query answers must equal the model's too
+    let freshOk := (modelPer.zip im.per).all fun ((rs, _), br) =>
+      (rs.zip br.res).all fun (m, i) => match i.fresh with
+        | some fr => fr == m.res
+        | none => true
+    let agree := words model == words implStr && modelPer.all (·.2) && freshOk
     -- the spec, on the implementation's reply
     let ionsSorted := sortPairs (im.ions.map pairOf)
     let perB : List (Nat × BRes) := req.Bs.zip im.per
@@ -190,6 +219,9 @@ def handlePage (args impl : List String) : Option Reply := do
           match qOfBits qr.win with
           | none => some s!"window@B={B},q={qi}"
           | some w =>
+            -- a lookup through the shared query object must equal the same lookup through a fresh one
+            if (match qr.fresh with | some fr => fr != qr.res | none => false) then
+              some s!"lookup_depends_on_history@B={B},q={qi}" else
             let want := sortPairs ((scan masses br.frags w).map pairOf)
             let d := diffSorted (want.length + qr.res.length + 1) want qr.res
             if d.1 != 0 then some s!"scan-missing@B={B},q={qi}"
@@ -220,8 +252,9 @@ def handle (op : String) (args impl : List String) : Option Reply :=
         let c := bssClause arr lo hi L R
         if c == "" then "ok" else "bad:" ++ c
     pure (exact model (" ".intercalate impl) spec)
-  | "page" => handlePage args impl
-  | "dbinv" => handlePage args impl
+  | "page" => handlePage false args impl
+  | "dbinv" => handlePage false args impl
+  | "pageseq" => handlePage true args impl
   | _ => none
 
 end Sage.C03
